@@ -107,7 +107,7 @@ def cases(draw):
                  whitelist=draw(st.sampled_from(['', '# redeployed\n'])) + g0['whitelist'],
                  blacklist=draw(st.sampled_from(['', '# redeployed\n\n'])) + g0['blacklist'])
     gens = [dict(g0, wl_missing=False, bl_missing=False), gone, again]
-  return {'generations': gens, 'resolution': draw(st.sampled_from([0, 0, 1, 10, 60]))}
+  return {'generations': gens, 'resolution': draw(st.sampled_from([0, 0, 1, 10, 60])), 'symlinked': draw(st.integers(0, 3)) == 0}
 
 
 def entry_matches(e, name):
@@ -182,16 +182,22 @@ def execute(ctx, case):
       WL, BL = b.regexlist.WhiteList, b.regexlist.BlackList
       wl_path = os.path.join(b.conf_dir, 'whitelist.conf')
       bl_path = os.path.join(b.conf_dir, 'blacklist.conf')
-      for pth in (wl_path, bl_path):
-        if os.path.exists(pth):
+      for pth in (wl_path, bl_path, wl_path + '.real', bl_path + '.real'):
+        if os.path.lexists(pth):
           os.unlink(pth)
       WL.list_file, BL.list_file = wl_path, bl_path
+      if case.get('symlinked'):
+        # the configured paths are symbolic links (config-management releases, a mounted config volume): the files
+        # they point to are what gets written, removed and edited
+        os.symlink(wl_path + '.real', wl_path)
+        os.symlink(bl_path + '.real', bl_path)
+      real = (lambda p_: p_ + '.real') if case.get('symlinked') else (lambda p_: p_)
       rec = env.Recorder(b.events.metricReceived)
       lst = wire.Listener(kind)
       mtime = 1000000000
       for gi, g in enumerate(case['generations']):
         mtime += 100
-        for pth, text, missing in ((wl_path, g['whitelist'], g.get('wl_missing')), (bl_path, g['blacklist'], g.get('bl_missing'))):
+        for pth, text, missing in ((real(wl_path), g['whitelist'], g.get('wl_missing')), (real(bl_path), g['blacklist'], g.get('bl_missing'))):
           if missing:
             if os.path.exists(pth):
               os.unlink(pth)
